@@ -20,14 +20,18 @@ def inserted_functions(tier, seed):
         br = BResult()
         bodies = {"one-block": "nop\nret", "branch+label": "cmpq $0, %rdi\nje .Lz\nnop\n.Lz:\nret", "two-labels": "nop\n.La:\njmp .Lb\n.Lb:\nret",
                   "call": "call g\nret", "loop": ".Ltop:\ndecq %rdi\njne .Ltop\nret"}
-        br.bound = ("module shapes of bounded/scen.py (kinds plain/call, with and without function info) x 1 or 2 functions inserted with register_insert_function x 5 bodies "
+        br.bound = ("module shapes of bounded/scen.py (kinds plain/call, with function info, with empty function tables, without any function table) x 1 or 2 functions inserted with register_insert_function x 5 bodies "
                     "(one block, branch + label, two labels, a call, a loop) x optionally an ordinary edit in the same apply()")
         br.clauses = ["C06/inserted-function-in-all-three-tables-with-its-symbol-as-name-and-entry", "C06/entries-are-the-blocks-the-function-symbols-designate",
                       "C06/every-block-of-the-inserted-code-belongs-to-the-function", "C06/no-block-in-two-functions-and-entries-subset-of-blocks",
                       "C06/existing-functions-untouched-by-an-inserted-function"]
         distinct = set()
-        for kind, funcs, names, with_edit in itertools.product(("plain", "call"), (False, True), (("one-block",), ("branch+label",), ("two-labels", "call"), ("loop", "one-block")), (False, True)):
-            ir, m, bi, blocks, fl = scen.build(scen.Shape(kind, funcs))
+        for kind, funcs, names, with_edit in itertools.product(("plain", "call"), (False, True, "no-tables"), (("one-block",), ("branch+label",), ("two-labels", "call"), ("loop", "one-block")), (False, True)):
+            ir, m, bi, blocks, fl = scen.build(scen.Shape(kind, funcs is True))
+            if funcs == "no-tables":
+                # a module that has no function tables at all (the test helper pre-creates empty ones)
+                for nm in ("functionBlocks", "functionEntries", "functionNames"):
+                    m.aux_data.pop(nm, None)
             fb0 = {u: set(v) for u, v in (_auxdata.function_blocks.get(m) or {}).items()}
             fe0 = {u: set(v) for u, v in (_auxdata.function_entries.get(m) or {}).items()}
             rc = RewritingContext(m, fl)
